@@ -134,7 +134,7 @@ pub fn run(ctx: &mut Ctx) {
         }
     }
     ctx.exhaustive.insert("all ordered pairs of documents with <=3 nodes".into(), !ctx.miri);
-    let n = ctx.budget(80_000, 3_000_000);
+    let n = ctx.budget(500_000, 10_000_000);
     for i in 0..n {
         if !ctx.next_case() {
             return;
